@@ -55,6 +55,13 @@ def site_text(ev):
     return norm(n) if n is not None else ev.prim
 
 
+def site_akey(ev, resource):
+    """what the site does, independent of the names of locals: callee, effect kind, file class"""
+    n = ev.extra.get("site_node")
+    callee = norm(n.func) if isinstance(n, ast.Call) else ev.prim
+    return f"{callee} {ev.kind} {resource}"
+
+
 def site_func(ev):
     f = ev.extra.get("site_func")
     return f.qual if f is not None else ev.func.qual
